@@ -62,10 +62,10 @@ Print Assumptions C02hs13_liveness_partial_v13_hrr_clientauth.
    expiry per side; the k-th consecutive expiry comes min(I*2^k, 60 s) after the previous one *)
 Theorem C02hs13_round_interval_bound :
   forall (c : cfg) (e : ep) (k : nat),
-    awaiting c e -> e_interval e <= 60000 ->
+    awaiting c e ->
     let e' := timeouts k c e in
     awaiting c e' /\ e_flight e' = e_flight e /\ e_out e' = e_out e /\
-    e_interval e' = (if c_backoff c then N.min (e_interval e * 2 ^ N.of_nat k) 60000 else e_interval e) /\
+    e_interval e' = sched c (e_interval e) k /\
     e_timer (timeouts (S k) c e) = e_timer e' + e_interval (timeouts (S k) c e).
 Proof. exact interval_law. Qed.
 Print Assumptions C02hs13_round_interval_bound.
